@@ -55,6 +55,7 @@ type RecStorage struct {
 	// message type) fails with Fail; one shot
 	FailOp   string
 	FailType string
+	FailId   string // when set, the id of the message must match too
 	nid      bool
 }
 
@@ -167,7 +168,7 @@ func (r *RecStorage) begin(op, typ, id string, write bool, b []byte) (OpRec, err
 	r.seq++
 	rec := OpRec{Seq: r.seq, Op: op, Type: typ, Id: id, Write: write, Bytes: b}
 	var ferr error
-	match := r.FailOp != "" && r.FailOp == op && (r.FailType == "" || r.FailType == typ)
+	match := r.FailOp != "" && r.FailOp == op && (r.FailType == "" || r.FailType == typ) && (r.FailId == "" || r.FailId == id)
 	if match {
 		r.FailOp = ""
 	}
